@@ -1,6 +1,7 @@
 import ZvbiModel.Demux.JoinC07
 import ZvbiModel.Demux.JoinHeader
-import ZvbiModel.Demux.CorFeed
+import ZvbiModel.Demux.JoinResync
+import ZvbiModel.Demux.CorCompose
 /-!
 # C07 (joined with C06) - parser equivalence, the round trip from the multiplexer model, coroutine = feed
 
@@ -82,6 +83,36 @@ theorem mux_demux_roundtrip_model (cfg : SrcCfg) (ops : List Op) (hops : ∀ op 
   intro s hs
   exact run_lines_canon ops Zvbi.Mux.newPes s (List.dropLast_subset _ hs)
 
+/-- **resync on an intact stream after a discard or reset.**  A demultiplexer at a packet boundary
+(`skip` 0, header lookahead) that is at a frame start - the state after `vbi_dvb_demux_reset` and
+after every discarded frame (`C07.error_discards`) - whatever stale lines, line counters, frame PTS
+and packet PTS it still holds: an intact stream of separable frames that follows is delivered
+completely (all packets but the last, which is held), exactly as from a new demultiplexer.
+(The part of `C07.resync_full` whose sender side is the standards reader / C06's multiplexer.) -/
+theorem resync_from_frame_start (cfg : SrcCfg) (fs : FS) (hnf : fs.newFrame = true) (bs : Bytes) (ps : List Pes)
+    (h : pesStream bs = some ps) (hb : ∀ b ∈ bs, b < 256) (hsep : Sep (ps.map (·.lines))) :
+    (arun cfg { skip := 0, lookahead := 48, fs := fs } bs).frames = ps.dropLast.map outOf
+    ∧ (arun cfg { skip := 0, lookahead := 48, fs := fs } bs).frames = frames cfg bs
+    ∧ (arun cfg { skip := 0, lookahead := 48, fs := fs } bs).stop = none := by
+  obtain ⟨f0, h0, _⟩ := frames_of_pesStream (cfg := cfg) bs ps h hb hsep
+  have hfr : frames cfg bs = ps.dropLast.map outOf := by unfold frames; rw [h0]
+  by_cases hne : ps = []
+  · subst hne
+    have hbs : bs = [] := by
+      obtain ⟨pks, _, h2, h3⟩ := pesStreamF_inv _ bs [] h
+      have : pks = [] := by simpa using h3
+      subst this; simpa using h2.symm
+    subst hbs
+    simp [arun, frames]
+  · obtain ⟨fsEnd, har, _⟩ := frames_of_pesStream_from (cfg := cfg) fs hnf bs ps h hb hsep hne
+    rw [har, hfr]
+    exact ⟨rfl, rfl, rfl⟩
+
+/-- non-vacuity: the context after the 70-unit packet (at a frame start since 7c6e61c, 64 stale lines in the
+buffer) delivers the following intact frames like a new demultiplexer -/
+example : Zvbi.Props.C07.afterOverflow.fs.newFrame = true ∧ Zvbi.Props.C07.afterOverflow.fs.frame.lines.length = 64
+    ∧ Zvbi.Props.C07.afterOverflow.core.skip = 0 ∧ Zvbi.Props.C07.afterOverflow.core.lookahead = 48 := by decide +kernel
+
 /-! ## The header stage and the `lookahead` encoding of the PES state
 
 `demux_pes_packet` has no state variable: "a payload is in front of us" is `pes_wrap.lookahead > 48`,
@@ -104,6 +135,9 @@ theorem header_accept_lookahead (p : Nat) (fs fs' : FS) (h : Bytes) (sk la : Nat
     (he : foundRes p fs h = ((sk, la), fs')) (hla : la ≠ 48) :
     178 ≤ packetLengthOf h ∧ la = packetLengthOf h - 40 ∧ sk = p + 46 ∧ validHeader fs h = some fs' :=
   foundRes_accept p fs fs' h sk la he hla
+
+example : (foundRes 0 {} ((linePacket 3 7 0x55).take 46)).1 = (46, 138) ∧ packetLengthOf ((linePacket 3 7 0x55).take 46) = 178 := by
+  decide +kernel
 
 /-- **lookahead invariant.**  After every history of feed calls on whatever bytes, in whatever
 pieces: `pes_wrap.lookahead` is exactly 48 (start code scan / header state: the 48 bytes the scan
@@ -178,24 +212,18 @@ theorem cor_equals_feed_needs_discard :
       (fun f => (f.pts, f.lines.map fun l => l.line)) = [(1, [7]), (2, [0, 7])] :=
   cor_ne_feed_without_discard
 
-/-- OPEN: successive buffers drained through the coroutine = the same buffers fed, minus frames
-without lines (`cor_equals_feed` is the case of one drained buffer after any feed history).  Missing:
-the context a drain leaves when its last call handed a frame over exactly at the end of the buffer
-still sits at that packet's payload window, which is outside the invariant of feed contexts;
-`Demux.corDrain_refines` covers such a context, what is not done is the comparison of the two runs
-on the continuation (see `Demux/CorFeed.lean`). -/
-def cor_equals_feed_composed_full (cfg : SrcCfg) : Prop :=
-  cfg.corSkipsEmpty = true → cfg.pesDiscards = true →
-  ∀ (chunks bufs : List Bytes),
+/-- **cor_equals_feed over successive buffers.**  After any history of feed calls, any sequence of
+buffers drained one after the other through `vbi_dvb_demux_cor` (each by the caller loop, within
+`2 * length + 4` calls) returns exactly the frames with lines that feeding the same buffers delivers -
+also when a drain ends with a hand-over at the very end of its buffer, where the coroutine context
+still sits at that packet's payload window, a state no feed call leaves.  Proof: the relation
+"both contexts deliver the same frames with lines on every continuation" (`Demux.CorSim`) is kept by
+each drain (`Demux.corDrain_step`). -/
+theorem cor_equals_feed_composed (hse : cfg.corSkipsEmpty = true) (hpd : cfg.pesDiscards = true)
+    (chunks bufs : List Bytes) :
     pesCorDrains cfg (pesFeeds cfg St.init chunks).st bufs
-      = (pesFeeds cfg (pesFeeds cfg St.init chunks).st bufs).frames.filter (fun f => !f.lines.isEmpty)
-
-/-- what is proved of it: one drained buffer (any feed history before) -/
-theorem cor_equals_feed_composed_partial (hse : cfg.corSkipsEmpty = true) (hpd : cfg.pesDiscards = true)
-    (chunks : List Bytes) (buf : Bytes) :
-    pesCorDrains cfg (pesFeeds cfg St.init chunks).st [buf]
-      = (pesFeeds cfg (pesFeeds cfg St.init chunks).st [buf]).frames.filter (fun f => !f.lines.isEmpty) :=
-  Zvbi.Demux.cor_equals_feed_composed_partial cfg hse hpd chunks buf
+      = (pesFeeds cfg (pesFeeds cfg St.init chunks).st bufs).frames.filter (fun f => !f.lines.isEmpty) :=
+  Zvbi.Demux.cor_equals_feed_composed cfg hse hpd chunks bufs
 
 /-- an instance with two drained buffers, the first ending exactly where a frame was handed over -/
 example : pesCorDrains SrcCfg.repaired St.init
@@ -251,5 +279,91 @@ theorem mux_demux_roundtrip_cor (hse : cfg.corSkipsEmpty = true) (hpd : cfg.pesD
   cases hl : s.lines with
   | nil => exact absurd hl hd.1
   | cons l ls => rfl
+
+/-! ## Finding C07-full-frame: a frame that fills the sliced buffer exactly
+
+`line_address` reports VBI_ERR_SLICED_BUFFER_OVERFLOW before it tests for a new frame, so a frame of
+exactly 64 lines (`dx->sliced[64]`) cannot be closed: the first unit of the next frame gets the error,
+the 64 lines are discarded and that packet is skipped.  Reproduced on the real code
+(`corpus/C07/full-frame-64.ops`), proposed repair `fixes/dvb-demux-full-frame.diff`.  This is why
+`Demux.FrameLinesOK` demands fewer than 64 lines per frame, and it refutes `C07.resync_full` as written. -/
+
+/-- 63 Teletext units with an undefined line, first field, in one packet: legal, fits `dx->sliced[64]` -/
+def fullPacket63 : Bytes := witPacket 2 (List.replicate 63 (witTtxUnit 0xE0 0x40)).flatten
+/-- four ordinary frames: Teletext on line 7, PTS 3..6 -/
+def fourFrames : Bytes := linePacket 3 7 0x55 ++ linePacket 4 7 0x66 ++ linePacket 5 7 0x77 ++ linePacket 6 7 0x11
+
+/-- **two intact frames lost after a legal 63-line packet** (repaired source): of the four ordinary frames
+3, 4 and 5 are to be delivered (6 stays open); after `fullPacket63` only frame 5 is: frame 3 is merged
+with the 63 lines (no boundary recognisable), the 64-line frame is discarded when frame 4 begins, and
+frame 4's packet is skipped. -/
+theorem full_frame_lost_counterexample :
+    ((frames SrcCfg.repaired (fullPacket63 ++ fourFrames)).map fun f => (f.pts, f.lines.length)) = [(5, 1)]
+    ∧ ((frames SrcCfg.repaired fourFrames).map fun f => (f.pts, f.lines.length)) = [(3, 1), (4, 1), (5, 1)] := by
+  decide +kernel
+
+/-- the context `fullPacket63` leaves: at a packet boundary, 63 lines pending -/
+def after63 : St := (pesFeed SrcCfg.repaired St.init fullPacket63).st
+
+/-- **`C07.resync_full` is false as written** (repaired source): from the reachable context `after63`
+(packet boundary) the intact stream `fourFrames` loses two frames, not at most one. -/
+theorem resync_full_counterexample : ¬ Zvbi.Props.C07.resync_full SrcCfg.repaired := by
+  intro h
+  have h0 : after63.core.skip = 0 ∧ after63.core.lookahead = 48 := by decide +kernel
+  obtain ⟨x, y, rest, h1, h2, _, hy⟩ := h after63.core fourFrames h0.1 h0.2
+  have l1 : (arun SrcCfg.repaired after63.core fourFrames).frames.length = 1 := by decide +kernel
+  have l2 : (frames SrcCfg.repaired fourFrames).length = 3 := by decide +kernel
+  rw [h1, List.length_append] at l1
+  rw [h2, List.length_append] at l2
+  omega
+
+/-- **resync on an intact stream, from ANY context at a packet boundary** - what `C07.resync_full` can
+say: a demultiplexer at a packet boundary (`skip` 0, header lookahead) in whatever frame state - at a
+frame start or holding a stale frame with arbitrary lines, line counters and PTS - whose frame buffer
+has room for the lines of a packet (fewer than 64 in all, see the finding above), reading an intact
+stream of separable frames (as the standards reader accepts it; C06's multiplexer produces such
+streams): the frames delivered are those of a new demultiplexer on the same stream except that at
+most ONE stale/merged frame comes first (`x`) and at most the FIRST frame is lost (`y`).  Either the
+first packet closes the stale frame (nothing lost), or its lines cannot be told apart from the stale
+ones and are delivered merged with them when the second packet begins. -/
+theorem resync_on_intact_stream (cfg : SrcCfg) (fs : FS) (bs : Bytes) (ps : List Pes) (h : pesStream bs = some ps)
+    (hb : ∀ b ∈ bs, b < 256) (hsep : Sep (ps.map (·.lines)))
+    (hcap : ∀ p ∈ ps, fs.frame.lines.length + p.lines.length < 64) :
+    ∃ x y rest, (arun cfg { skip := 0, lookahead := 48, fs := fs } bs).frames = x ++ rest
+      ∧ frames cfg bs = y ++ rest ∧ x.length ≤ 1 ∧ y.length ≤ 1
+      ∧ (arun cfg { skip := 0, lookahead := 48, fs := fs } bs).stop = none := by
+  obtain ⟨f0, h0, _⟩ := frames_of_pesStream (cfg := cfg) bs ps h hb hsep
+  have hfr : frames cfg bs = ps.dropLast.map outOf := by unfold frames; rw [h0]
+  by_cases hnf : fs.newFrame = true
+  · obtain ⟨h1, h2, h3⟩ := resync_from_frame_start cfg fs hnf bs ps h hb hsep
+    exact ⟨[], [], ps.dropLast.map outOf, by simpa using h1, by simpa using hfr, by simp, by simp, h3⟩
+  · have hnf' : fs.newFrame = false := by simpa using hnf
+    obtain ⟨pks, h1, h2, h3⟩ := pesStreamF_inv _ bs ps h
+    subst h2; subst h3
+    cases pks with
+    | nil => exact ⟨[], [], [], by simp [arun], by simp [frames, arun], by simp, by simp, by simp [arun]⟩
+    | cons x pks =>
+      have hb' : ∀ y ∈ x :: pks, ∀ b ∈ y.1, b < 256 := by
+        intro y hy b hbm
+        apply hb
+        rw [List.mem_flatten]
+        exact ⟨y.1, List.mem_map.mpr ⟨y, hy, rfl⟩, hbm⟩
+      obtain ⟨X, Y, rest, r1, r2, r3, r4, r5⟩ := arun_resync (cfg := cfg) fs hnf' x pks h1 hb'
+        (by simpa [List.map_map, Function.comp_def] using hsep)
+        (hcap x.2 (by simp))
+      exact ⟨X, Y, rest, r1, by rw [hfr]; exact r2, r3, r4, r5⟩
+
+/-- a context at a packet boundary holding one stale Teletext line on line `n`, frame PTS 99 -/
+def staleCore (n : Nat) : Core :=
+  { skip := 0, lookahead := 48,
+    fs := { frame := { lines := [(⟨3, n, []⟩ : Sliced)], lastFrameLine := n }, framePts := 99, packetPts := 0, newFrame := false } }
+
+/-- non-vacuity (merged case): a context holding one stale line on line 5 with an old PTS; the stream's
+first frame (line 7) is appended to it and comes out merged, the others as sent -/
+example : ((arun SrcCfg.repaired (staleCore 5) fourFrames).frames.map fun f => (f.pts, f.lines.map (·.line))) = [(99, [5, 7]), (4, [7]), (5, [7])] := by
+  decide +kernel
+/-- non-vacuity (closing case): a stale line on line 9 is delivered first, then all frames as sent -/
+example : ((arun SrcCfg.repaired (staleCore 9) fourFrames).frames.map fun f => (f.pts, f.lines.map (·.line))) = [(99, [9]), (3, [7]), (4, [7]), (5, [7])] := by
+  decide +kernel
 
 end Zvbi.Props.C07Cor
